@@ -258,6 +258,14 @@ func genRefCase(t *rapid.T) RefCase {
 		if rapid.Bool().Draw(t, "fs-parent-writes") {
 			pre = append(pre, evmasm.Op{Kind: "sstore", Key: uint64(rapid.IntRange(0, 3).Draw(t, "fs-pk")), Val: 1})
 		}
+		if rapid.IntRange(0, 2).Draw(t, "fs-double") == 0 {
+			// the same slot is flushed twice with different values: the parent writes it and queries a precompile, the
+			// child (sharing the parent's storage through DELEGATECALL/CALLCODE) overwrites it, queries and fails
+			k, v1 := c.Prog.Frames[child].Ops[0].Key, uint64(rapid.IntRange(1, 2).Draw(t, "fs-dv1"))
+			c.Prog.Frames[child].Ops[0].Val = []uint64{0, 3 - v1}[rapid.IntRange(0, 1).Draw(t, "fs-dv2")]
+			pre = append(pre, evmasm.Op{Kind: "sstore", Key: k, Val: v1}, q)
+			call.CallOp = rapid.SampledFrom([]string{"DELEGATECALL", "CALLCODE"}).Draw(t, "fs-dcallop")
+		}
 		ops := append(pre, call)
 		if rapid.Bool().Draw(t, "fs-twice") {
 			ops = append(ops, call)
